@@ -157,6 +157,9 @@ pub fn prim_upgrade(wk: &Weak<Node>, target: Option<Oid>, top_level: bool) -> Op
                     let d = format!("upgrade returned Some for {} obj{}", why, t);
                     if moved {
                         w.violation(&["C08", "C13", "C01"], "upgrade-some-on-dead", sig, d, false);
+                    } else if uninit {
+                        // the never-initialised target of a new_cyclic call (closure running or panicked)
+                        w.violation(&["C08", "C14", "C01"], "upgrade-some-on-dead", sig, d, false);
                     } else {
                         w.violation(&["C08", "C01"], "upgrade-some-on-dead", sig, d, false);
                     }
@@ -467,7 +470,7 @@ pub fn do_try_unwrap(sel: Sel, top: bool) {
     debug_assert_eq!(oid, oid2);
     let pre = w(|w| {
         let o = &w.objs[oid as usize];
-        (w.shadow_strong(oid) + 1, o.box_addr, o.tainted, w.shadow_weak(oid))
+        (w.shadow_strong(oid) + 1, o.box_addr, o.tainted, w.shadow_weak(oid), o.slack)
     });
     let snap_pre = verif::object_snapshot(&cc);
     let buffered_pre = state::buffered_objects_count().unwrap_or(0);
@@ -525,7 +528,10 @@ pub fn do_try_unwrap(sel: Sel, top: bool) {
             w(|w| {
                 w.stats.unwrap_err += 1;
                 let restricted = !top && w.restricted();
-                if !restricted && pre.0 == 1 && !pre.2 {
+                // an object whose Cc::drop was unwound by a caught panic may keep a count that is too
+                // high (C04 allows the leak): the statement of C13 is in terms of strong_count()
+                let unique = if pre.4 { snap_pre.strong() == 1 } else { pre.0 == 1 };
+                if !restricted && unique && !pre.2 {
                     let sig = format!("try-unwrap-err-unique/{}", stack_sig_pub(w));
                     w.violation(&["C13"], "try-unwrap-err-unique", sig, format!("try_unwrap returned Err for uniquely owned obj{}", oid), false);
                 }
@@ -653,6 +659,10 @@ pub fn do_new_cyclic(spec: &Spec, clo: &[CloOp]) {
                 o.box_addr = b.addr;
                 o.box_size = b.size;
                 o.box_align = b.align;
+                // new_cyclic allocates the weak side record right after the box: the next tracked block
+                if let Some(r) = blocks.iter().find(|r| r.serial == b.serial + 1 && r.live && r.size < b.size) {
+                    o.side_rec = r.addr;
+                }
             }
         });
         struct ClosureGuard(Oid, bool);
